@@ -58,7 +58,7 @@ func (ex *Exec) symArg(name string, t types.Type, pi *ParamInfo) Value {
 		return v
 	}
 	if isString(t) {
-		s := StrV{Arr: Var(pre+".arr", SInt, lo, bi(-1)), Off: Var(pre+".off", SInt, bi(0), pow48), Len: Var(pre+".len", SInt, bi(0), pow48)}
+		s := StrV{Arr: Var(pre+".arr", SInt, lo, bi(-1)), Off: Var(pre+".off", SInt, bi(0), pow48), Len: Var(pre+".len", SInt, bi(0), maxLen)}
 		pi.Str = &s
 		return s
 	}
